@@ -20,6 +20,7 @@ STEP0_REQUEST = bytes([0x7E, 0x04, 0x00, 0xFE, 0x20, 0x10, 0x00, 0x00, 0x00, 0x0
 P2P_PORT, RDAC_PORT = 50000, 50002
 IPS = ["10.1.1.1", "10.1.1.2", "10.1.1.3"]
 IPS6 = ["2001:db8:0:a::1", "2001:db8:0:b::1", "::ffff:10.1.1.1"]  # two hosts with the same last group; an IPv4-mapped twin of IPS[0]
+IPS6LL = ["fe80::1%eth0", "fe80::1%eth1", "fe80::2%3"]  # link-local hosts as the socket layer reports them (zone after '%'); same host on two links
 
 
 def utf16_field(text, n):
@@ -151,6 +152,8 @@ class C18(Check):
         v6 = k.random() < 0.2
         if v6:
             ips = [IPS6[0], IPS6[1], k.choice([IPS[0], IPS6[2]])]
+            if k.random() < 0.35:
+                ips = list(IPS6LL)
         v6tuple = v6 and k.random() < 0.5  # asyncio hands (host, port, flowinfo, scope_id) to datagram_received for IPv6 sockets
         knobs = {"peers": npeers, "uuid_seed": k.getrandbits(32), "shared_addr": k.random() < 0.25,
                  "app_sets_out": k.random() < 0.5, "snmp_patches": k.random() < 0.3}
